@@ -94,6 +94,7 @@ def decode_monitored(cls, data, endian, mon, budget_steps):
     except Exception as e:  # noqa
         err = e
     steps = mon.count
+    mon.hard = 10 ** 12       # the budget belongs to the decode call, not to the checker's own code that follows
     peak = tracemalloc.get_traced_memory()[1] - base
     return m, ret, err, steps, peak
 
@@ -125,6 +126,7 @@ def check_input(acc, sch, w, mod, mon, tname, endian, fam, desc, data, cost, wit
     if used is None:
         used = REUSED[key] = cls()
     mon.count = 0
+    mon.hard = budget_steps * 50 + 100000
     try:
         used.decode(data, endian)
         uerr = None
@@ -134,6 +136,7 @@ def check_input(acc, sch, w, mod, mon, tname, endian, fam, desc, data, cost, wit
     except Exception as e:  # noqa
         uerr = e
     mon.count = 0
+    mon.hard = 10 ** 12
     if uerr is not None and not isinstance(uerr, prophy.ProphyError):
         acc.violation(PROP, 'decode-into-a-used-message-raises:%s' % type(uerr).__name__,
                       witness(error='%s: %s' % (type(uerr).__name__, uerr)))
@@ -254,6 +257,7 @@ def check_guard_boundary(acc, wd, mon):
                     S.Struct('GBE', [M('a', 'u8'), M('b', 'u8')]),
                     S.Struct('GB3', [M('n', 'i64'), M('e', 'GBE', S.EXT, sizer='n')]),
                     S.Struct('GB4', [M('b', 'byte', S.DYNAMIC), M('t', 'u16')]),
+                    S.Struct('GB6', [M('n', 'u32'), M('ids', 'u16', S.EXT, sizer='n'), M('items', 'GBE', S.EXT, sizer='n')]),
                     S.Struct('GB5', [M('k', 'u8'), M('v', 'u64', S.LIMITED, 70000)])])
     try:
         mod, nodes = pyrt.compile_python(sch.to_prophy(), wd)
@@ -261,6 +265,18 @@ def check_guard_boundary(acc, wd, mon):
         acc.prereq({'stage': e.stage, 'error': str(e)[:300]})
         return
     w = W.Wire(sch)
+    # histories of valid inputs into the long-lived message of the type: arrays of different kinds sharing a sizer
+    # grow, shrink to nothing and grow again
+    for tname, mk in (('GB2', lambda k: {'a': [7] * k, 'b': b'\x33' * k, 't': k}),
+                      ('GB6', lambda k: {'ids': [9] * k, 'items': [{'a': 1, 'b': 2}] * k}),
+                      ('GB1', lambda k: {'x': [5] * k})):
+        for e in '<>':
+            for k in (3, 0, 2, 0, 0, 1):
+                data, spans = w.encode(tname, mk(k), e)
+                acc.count('history_inputs')
+                check_input(acc, sch, w, mod, mon, tname, e, 'history', 'count-%d' % k, data, static_cost(w, sch, tname),
+                            {'schema_json': sch.to_json(), 'schema': sch.to_prophy(), 'type': tname,
+                             'value': 'arrays of 3, 0, 2, 0, 0, 1 elements in turn into one message'})
     for n in (65535, 65536, 65537):
         vals = {'GB1': {'x': [7] * n}, 'GB2': {'a': [0x1234] * n, 'b': b'\x5a' * n, 't': 9},
                 'GB3': {'e': [{'a': 1, 'b': 2}] * n}, 'GB4': {'b': b'\xa5' * n, 't': 3}, 'GB5': {'k': 1, 'v': [5] * n}}
@@ -286,7 +302,7 @@ def run_shard(spec):
     try:
         with C.Workdir() as wd:
             if (spec.get('seed', 1) % 1000 == 0 and spec['kind'] != 'replay') or \
-                    (spec['kind'] == 'replay' and spec['extra'].get('family') == 'guard-boundary'):
+                    (spec['kind'] == 'replay' and spec['extra'].get('family') in ('guard-boundary', 'history')):
                 check_guard_boundary(acc, wd, mon)
                 if spec['kind'] == 'replay':
                     return acc.done()
